@@ -12,12 +12,14 @@ export PYTHONPATH=$WT/src:/tmp/noiseshim
 demo() { if grep -q "def test_" "$WT/demo_break.py" && ! grep -q "__main__" "$WT/demo_break.py"; then (cd "$WT" && timeout 600 /venv/bin/python -m pytest -q -p no:cacheprovider --timeout=300 demo_break.py >/dev/null 2>&1); else (cd "$WT" && timeout 600 /venv/bin/python demo_break.py >/dev/null 2>&1); fi; echo $?; }
 TESTS=$(cd "$WT" && /venv/bin/python -m pytest -q -p no:cacheprovider --timeout=900 -n 8 2>&1 | tail -1)
 D_WITH=$(demo)
-git -C "$WT" stash -q -- src
+# (no git stash: the stash is shared by all worktrees of a repository)
+git -C "$WT" checkout -q -- src
 D_WITHOUT=$(demo)
-git -C "$WT" stash pop -q
+git -C "$WT" apply "$OUT/patch.diff"
 unset PYTHONPATH
 cd /verif
-CHK=$(VT_REPO_SRC=$WT/src /venv/bin/python -m vt.run -p "$PROP" --tier quick --no-evidence 2>&1); RC=$?
+# the check runs against the CURRENT /repo/src plus this change (the worktree may predate later fix commits)
+CHK=$(tools/mutant.sh "$OUT/patch.diff" "$PROP" quick 2>&1); RC=$?
 KEYS=$(echo "$CHK" | grep -oE "key=[^ ]+" | sort -u | head -5 | tr '\n' ' ')
 echo "$ID $PROP tests=[$TESTS] demo_with=$D_WITH demo_without=$D_WITHOUT check_rc=$RC $KEYS"
 python3 - "$ID" "$PROP" "$TESTS" "$D_WITH" "$D_WITHOUT" "$RC" "$KEYS" <<'PY'
@@ -25,7 +27,7 @@ import json,sys
 i,p,t,dw,dwo,rc,keys=sys.argv[1:8]
 m={"id":i,"property":p,"source":"independent sub-agent given only the property text and a scratch worktree",
  "confirmed":{"existing_test_suite_with_change":t,"demo_exit_with_change":int(dw),"demo_exit_without_change":int(dwo)},
- "check":{"cmd":"VT_REPO_SRC=<worktree>/src /venv/bin/python -m vt.run -p %s --tier quick"%p,"exit":int(rc),"violation_keys":keys.split()},
+ "check":{"cmd":"tools/mutant.sh seeded/%s/patch.diff %s quick   (scratch copy of /repo/src + the change)"%(i,p),"exit":int(rc),"violation_keys":keys.split()},
  "caught_by_quick": int(rc)==1}
 try:
     old=json.load(open("/verif/seeded/%s/meta.json"%i)); m["needs"]=old.get("needs"); m["what"]=old.get("what")
